@@ -1,5 +1,6 @@
 /- line protocol for the `clmath` (pure) and `cl` (app) engines -/
 import OsmoVerif.Model.CL
+import OsmoVerif.Model.CLRewards
 import OsmoVerif.Model.DrvNum
 namespace OsmoVerif.CL
 open OsmoVerif.Num
@@ -50,6 +51,9 @@ def stepCL (op : String) (args : List String) : String :=
     | _ => "bad-op"
   | "liqamts", [sp, a, b, a0, a1] => match ints [sp, a, b, a0, a1] with
     | some [sp, a, b, a0, a1] => showOpt (liquidityFromAmounts sp a b a0 a1)
+    | _ => "bad-op"
+  | "growth", [charge, liq, scale] => match ints [charge, liq, scale] with
+    | some [charge, liq, scale] => showOpt (CLRewards.spreadGrowth charge liq scale)
     | _ => "bad-op"
   | "stepOGI", [zfo, spf, sp, target, liq, rem] => match bool? zfo, ints [spf, sp, target, liq, rem] with
     | some zfo, some [spf, sp, target, liq, rem] => showStep (stepOutGivenIn zfo spf sp target liq rem)
